@@ -82,12 +82,13 @@ struct Q {
     /// Asked with TX / TIME coordinates too (they resolve to a sequence and
     /// then share the SEQ path, so a sub-battery is enough).
     all_coordinates: bool,
-    subject_param: bool,
+    /// Bound as `:subject` when the query takes one.
+    subject: Option<&'static str>,
 }
 
 fn battery() -> Vec<Q> {
-    let q = |family, head| Q { family, head, tail: String::new(), all_coordinates: false, subject_param: false };
-    let qt = |family, head, tail: &str| Q { family, head, tail: tail.to_string(), all_coordinates: false, subject_param: false };
+    let q = |family, head| Q { family, head, tail: String::new(), all_coordinates: false, subject: None };
+    let qt = |family, head, tail: &str| Q { family, head, tail: tail.to_string(), all_coordinates: false, subject: None };
     let pinned = format!(" {FOR_TIME}");
     let mut out = vec![
         // element by key / name / type
@@ -128,7 +129,10 @@ fn battery() -> Vec<Q> {
         qt("belief-functional-siblings", r#"FIND(?p.id, ?b.status, ?b.support.score, ?b.opposition.score) WHERE { ?s CONCEPT {key: "a"} ?p PROPOSITION (?s, "status", ?o) ?b BELIEF (?p) }"#, &pinned),
         qt("belief-functional-sibling-by-id", r#"FIND(?b.status, ?b.opposition) WHERE { ?b BELIEF (id: "P-2") }"#, &pinned),
         qt("belief-functional-sibling-by-id", r#"FIND(?b.status, ?b.opposition) WHERE { ?b BELIEF (id: "P-3") }"#, &pinned),
-        Q { family: "belief-slot", head: r#"FIND(?slot) WHERE { ?slot BELIEF SLOT (:subject, "status") }"#, tail: pinned.clone(), all_coordinates: false, subject_param: true },
+        qt("belief-functional-siblings", r#"FIND(?p.id, ?b.status, ?b.support.score, ?b.opposition.score) WHERE { ?s CONCEPT {key: "b"} ?p PROPOSITION (?s, "status", ?o) ?b BELIEF (?p) }"#, &pinned),
+        qt("belief-functional-sibling-by-id", r#"FIND(?b.status, ?b.opposition) WHERE { ?b BELIEF (id: "P-4") }"#, &pinned),
+        Q { family: "belief-slot", head: r#"FIND(?slot) WHERE { ?slot BELIEF SLOT (:subject, "status") }"#, tail: pinned.clone(), all_coordinates: false, subject: Some("C-1") },
+        Q { family: "belief-slot", head: r#"FIND(?slot) WHERE { ?slot BELIEF SLOT (:subject, "status") }"#, tail: pinned.clone(), all_coordinates: false, subject: Some("C-2") },
         // filters, negation, optional, aggregates, paging
         q("aggregate-count", r#"FIND(COUNT(?c)) WHERE { ?c CONCEPT {} }"#),
         q("aggregate-numeric", r#"FIND(COUNT(?a), AVG(?a.confidence), MAX(?a.confidence)) WHERE { ?a ASSERTION {} }"#),
@@ -146,9 +150,9 @@ fn battery() -> Vec<Q> {
 
 fn ask(nx: &Nx, q: &Q, coordinate: &str) -> Json {
     let text = format!("{}{}{}", q.head, coordinate, q.tail);
-    if q.subject_param {
+    if let Some(subject) = q.subject {
         let mut params = Map::new();
-        params.insert("subject".into(), Json::String("C-1".into()));
+        params.insert("subject".into(), Json::String(subject.into()));
         nx.q_with(&text, &params)
     } else {
         nx.q(&text)
